@@ -855,6 +855,10 @@ def run(tier: str, seed: int) -> int:
                     bump(dist["kinds"], kk)
                 chk.count(("p", repr(s)), nested >= 1 and depth >= 3)
 
+        # ---- the JSON TEXT codec: real json.dumps / json.loads against Codec/JsonText.v, inside Coq ----
+        from . import jsontext_tie
+        dist["json_text"] = jsontext_tie.phase(chk, _r.Random(rng.getrandbits(32)), 120 if tier == "quick" else 1200, docs=False, texts=True)
+
         # ---- evaluate the model inside Coq ----
         disagreements = 0
         for terms, cases, ctype, bad_fn, show_fn, label in [
